@@ -168,14 +168,16 @@ type PathResult struct {
 
 // Config tells the executor what is a sink and how to treat calls.
 type Config struct {
-	SinkFields map[*types.Var]string      // field object -> sink id: a value loaded from it is a sink
-	ParamSink  map[*ssa.Parameter]string  // parameter that is a sink
-	Bind       map[*ssa.Parameter]AV      // forced parameter values (case specialisation)
+	SinkFields map[*types.Var]string             // field object -> sink id: a value loaded from it is a sink
+	ParamSink  map[*ssa.Parameter]string         // parameter that is a sink
+	Bind       map[*ssa.Parameter]AV             // forced parameter values (case specialisation)
 	Inline     func(root, fn *ssa.Function) bool // inline this static callee while analysing root?
 	// Effects says which cells of extern objects a non-inlined callee may modify:
 	// field -> constant length delta (slices) if known. ok=false: unknown callee (everything may change).
 	Effects func(fn *ssa.Function, method *types.Func) (mods map[*types.Var]*int64, writesSink bool, ok bool)
 	Pure    func(fn *ssa.Function) bool
+	// GlobalMap resolves m[key] for a package-level map initialised with constants (nil: unknown).
+	GlobalMap func(g *ssa.Global, key AV) AV
 	// Balanced: the callee's own obligations guarantee it leaves no unaccounted payload bytes.
 	Balanced func(fn *ssa.Function) bool
 	MaxSteps int
